@@ -7,7 +7,7 @@ HitSet(e) == { <<h[1], h[2], h[3], h[4], h[5], h[6], h[7]>> : h \in { e.hits[k] 
 Verdict(e) ==
     IF e.st # "ok" THEN "fimo raised on a valid input"
     ELSE IF ~e.exact THEN "a reported score or p-value is not on the exact grid of this motif (score/bin_size integral, p*4^w integral)"
-    ELSE LET want == AllHitsDP(e.motifs, e.seqs, e.thr, e.rc) got == HitSet(e) IN
+    ELSE LET want == AllHitsDPT(e.motifs, e.seqs, e.thr, e.rc, e.tielt) got == HitSet(e) IN
          IF Cardinality(got) # Len(e.hits) THEN "a hit is reported twice"
          ELSE IF \E h \in want : ~(\E g \in got : g[1] = h[1] /\ g[2] = h[2] /\ g[3] = h[3] /\ g[5] = h[5])
               THEN "a window whose score exceeds the threshold is not reported"
